@@ -207,7 +207,11 @@ type Query struct {
 }
 
 // BuildQuery produces the SMT-LIB text asserting hyps and the negation of goal.
-func BuildQuery(hyps []*Term, goal *Term, opaque bool) *Query {
+func BuildQuery(hyps []*Term, goal *Term, opaque bool, abstract ...map[string]bool) *Query {
+	var abs map[string]bool
+	if len(abstract) > 0 {
+		abs = abstract[0]
+	}
 	p := &printer{names: map[*Term]string{}, opaque: opaque, monos: map[string]string{}}
 	all := append(append([]*Term{}, hyps...), goal)
 	vars, ufs := map[string]*Term{}, map[string]*Term{}
@@ -234,6 +238,12 @@ func BuildQuery(hyps []*Term, goal *Term, opaque bool) *Query {
 		}
 		emitted[n] = true
 		d := specDefs[n]
+		if abs[n] {
+			// used as an uninterpreted function in this proof (its definition is not needed)
+			sb.WriteString(declareFromDefine(d.Text))
+			sb.WriteByte('\n')
+			return
+		}
 		for _, dep := range d.Deps {
 			emitDef(dep)
 		}
@@ -343,7 +353,7 @@ type SolveResult struct {
 	Detail  string
 }
 
-var solverSem = make(chan struct{}, 16)
+var solverSem = make(chan struct{}, 24)
 var workDir = os.TempDir()
 
 type solverSpec struct {
@@ -367,7 +377,30 @@ var solverStats = map[string]*struct {
 }{}
 
 // Solve races the installed solvers on q; unsat = proved.
+var solveMemo = map[[32]byte]SolveResult{}
+var solveMemoMu sync.Mutex
+
+// Solve races the solvers; identical queries within one run are solved once.
 func Solve(q *Query, timeoutS int, wantModel bool) SolveResult {
+	key := sha256.Sum256([]byte(q.Text))
+	solveMemoMu.Lock()
+	if r, ok := solveMemo[key]; ok && (r.Verdict == Proved || (r.Verdict == Refuted && (!wantModel || r.Model != ""))) {
+		solveMemoMu.Unlock()
+		r.Detail = "same query as an earlier obligation of this run"
+		r.Seconds = 0
+		return r
+	}
+	solveMemoMu.Unlock()
+	r := solve1(q, timeoutS, wantModel)
+	if r.Verdict != Unknown {
+		solveMemoMu.Lock()
+		solveMemo[key] = r
+		solveMemoMu.Unlock()
+	}
+	return r
+}
+
+func solve1(q *Query, timeoutS int, wantModel bool) SolveResult {
 	h := sha256.Sum256([]byte(q.Text))
 	base := filepath.Join(workDir, fmt.Sprintf("q_%x", h[:8]))
 	ctx, cancel := context.WithCancel(context.Background())
@@ -444,4 +477,76 @@ func Solve(q *Query, timeoutS int, wantModel bool) SolveResult {
 	}
 	sort.Strings(details)
 	return SolveResult{Verdict: Unknown, Seconds: time.Since(start).Seconds(), Detail: strings.Join(details, "; ")}
+}
+
+// declareFromDefine turns `(define-fun[-rec] f ((x S1) (y S2)) R body)` into `(declare-fun f (S1 S2) R)`.
+func declareFromDefine(text string) string {
+	i := strings.Index(text, "(define-fun")
+	if i < 0 {
+		return text
+	}
+	rest := text[i:]
+	j := strings.Index(rest, " ") // after define-fun / define-fun-rec
+	rest = strings.TrimSpace(rest[j:])
+	k := strings.IndexAny(rest, " (")
+	name := rest[:k]
+	rest = strings.TrimSpace(rest[k:])
+	// parameter list: balanced parentheses
+	depth := 0
+	end := 0
+	for idx, c := range rest {
+		if c == '(' {
+			depth++
+		} else if c == ')' {
+			depth--
+			if depth == 0 {
+				end = idx
+				break
+			}
+		}
+	}
+	params := rest[1:end]
+	after := strings.TrimSpace(rest[end+1:])
+	// result sort: next balanced s-expression or atom
+	var ret string
+	if strings.HasPrefix(after, "(") {
+		depth = 0
+		for idx, c := range after {
+			if c == '(' {
+				depth++
+			} else if c == ')' {
+				depth--
+				if depth == 0 {
+					ret = after[:idx+1]
+					break
+				}
+			}
+		}
+	} else {
+		ret = strings.Fields(after)[0]
+	}
+	// sorts of parameters: each (name sort)
+	var sorts []string
+	p := strings.TrimSpace(params)
+	for len(p) > 0 {
+		if p[0] != '(' {
+			break
+		}
+		depth = 0
+		for idx, c := range p {
+			if c == '(' {
+				depth++
+			} else if c == ')' {
+				depth--
+				if depth == 0 {
+					inner := strings.TrimSpace(p[1:idx])
+					sp := strings.IndexAny(inner, " ")
+					sorts = append(sorts, strings.TrimSpace(inner[sp:]))
+					p = strings.TrimSpace(p[idx+1:])
+					break
+				}
+			}
+		}
+	}
+	return fmt.Sprintf("(declare-fun %s (%s) %s)", name, strings.Join(sorts, " "), ret)
 }
